@@ -2,6 +2,7 @@ package gocv
 
 import (
 	"fmt"
+	"os"
 	"go/types"
 	"sort"
 	"strings"
@@ -39,6 +40,26 @@ func sub(a, b string) string {
 	return sx("-", a, b)
 }
 
+const fAt = "|at|"
+
+// at(off, k): index of element k of a slice window starting at off. An
+// uninterpreted wrapper (axiom: at(o,k) = o+k) so that quantifier patterns over
+// element reads contain no interpreted arithmetic.
+func (E *Engine) at(off, k string) string {
+	if off == "0" {
+		return k
+	}
+	if os.Getenv("GOCV_AT") == "" {
+		return add(off, k)
+	}
+	if !E.specDecl["at"] {
+		E.specDecl["at"] = true
+		E.declare(fAt, "(Int Int) Int")
+		E.axioms = append(E.axioms, axiom{Name: "at", Trigger: []string{fAt}, Body: "(forall ((o Int) (k Int)) (! (= (|at| o k) (+ o k)) :pattern ((|at| o k))))"})
+	}
+	return sx(fAt, off, k)
+}
+
 func le(a, b string) string {
 	ca, oka := isConstTerm(a)
 	cb, okb := isConstTerm(b)
@@ -57,6 +78,7 @@ func (E *Engine) havocAll(st *State, why string) {
 	E.note("havoc of the whole heap: %s", why)
 	ep := st.heap[epochKey]
 	st.heap = map[string]string{epochKey: ep + "'"}
+	defer func() { st.heap[allocKey] = st.alloc }()
 	if st.written != nil {
 		st.written["*"] = true
 	}
@@ -278,6 +300,9 @@ func (E *Engine) applySpec(st *State, in ssa.Instruction, spec *FuncSpec, callee
 	preAlloc := st.alloc
 	// effects
 	if spec.ModAll {
+		if E.dry == 0 && E.cur.spec != nil && !E.cur.spec.ModAll {
+			E.oblige(st, "frame-write", E.site(in)+".star", "false", "callee "+label+" modifies *, the caller must declare modifies *", E.pos(in), nil)
+		}
 		E.havocAll(st, "callee "+label+" modifies *")
 	} else {
 		ev := &cenv{E: E, st: st, vars: vars, heap: pre, ctx: spec.Ctx, fc: E.cur}
@@ -494,6 +519,11 @@ func (E *Engine) modComps(mi *modItem) []string {
 func (E *Engine) havocMod(st *State, mi *modItem) {
 	if mi.comp != "" {
 		// make sure the component exists
+		if E.dry == 0 && E.cur.spec != nil && !E.cur.spec.ModAll {
+			if _, whole := E.allowedFor(mi.comp, "0", ""); !whole {
+				E.oblige(st, "frame-write", "comp."+mi.comp, "false", "callee modifies the whole component "+mi.comp+", which the caller's modifies clause does not allow", "", nil)
+			}
+		}
 		for _, comp := range E.modComps(mi) {
 			E.havocComp(st, comp)
 		}
@@ -514,8 +544,11 @@ func (E *Engine) havocMod(st *State, mi *modItem) {
 	if mi.allElems {
 		var ls []leafInfo
 		E.leafPaths(lv.Root, "", &ls)
-		for _, l := range ls {
+		for li, l := range ls {
 			comp := compName(elemsRoot(lv.Root), l.Path)
+			if li == 0 {
+				E.checkWrite(st, comp, lv.Ref, "", "callee effect "+mi.expr)
+			}
 			a := E.heapArr(st.heap, comp, l.Sort, true)
 			st.heap[comp] = sx("store", a, lv.Ref, E.freshConst("hvarr", arrSort(l.Sort)))
 			if st.written != nil {
@@ -590,7 +623,7 @@ func (E *Engine) frameCheck(st *State, in ssa.Instruction) {
 	}
 	var comps []string
 	for comp, t := range st.heap {
-		if comp == epochKey || E.isImmutable(comp) {
+		if comp == epochKey || comp == allocKey || E.isImmutable(comp) {
 			continue
 		}
 		if t != c.entryHeap[comp] && t != qsym("H0:"+comp) {
@@ -836,7 +869,7 @@ func (E *Engine) doAppend(st *State, in ssa.Instruction, args []*Val, res ssa.Va
 		}
 		comp := compName(elemsRoot(et), l.Path)
 		a := E.heapArr(h, comp, l.Sort, true)
-		return sx("select", sx("select", a, t.F[0].S), add(t.F[1].S, j))
+		return sx("select", sx("select", a, t.F[0].S), E.at(t.F[1].S, j))
 	}
 	var outs []*State
 	fits := le(newLen, cp)
